@@ -64,7 +64,7 @@ FIGURE_SCALARS = {"fig_align": (["left", "center", "right"], ["middle", "Left", 
                   "fig_pos": (["before", "after"], ["top", "After", ""])}
 DOC_RULES = ("group_by_missing", "page_by_missing", "subline_by_missing", "multi_section_column_missing", "new_page_without_page_by",
              "df_and_figure", "neither_df_nor_figure", "multi_body_not_list", "multi_length_mismatch",
-             "multi_nested_header_mismatch", "figure_missing_file", "margin_length")
+             "multi_nested_header_mismatch", "figure_missing_file", "margin_length", "paper_no_wider_than_margins")
 
 
 def forms_for(cls, field):
@@ -290,6 +290,12 @@ def doc_rule(rule, variant, bad: bool):
     if rule == "margin_length":
         n = [0, 5, 7, 1, 2, 3, 4, 8][variant % 8]
         return lambda: rtf.RTFPage(margin=[1.0] * (n if bad else 6))
+    if rule == "paper_no_wider_than_margins":
+        # the table width derived from a custom paper width (width - 2.25 in portrait, - 2.5 in landscape) must be positive
+        w, orient = [(2.25, "portrait"), (1, "portrait"), (2.5, "landscape"), (0.5, "landscape")][variant % 4]
+        if bad:
+            return lambda: rtf.RTFPage(width=w, orientation=orient)
+        return lambda: rtf.RTFPage(width=w + 3, orientation=orient) if variant % 2 else rtf.RTFPage(width=w, orientation=orient, col_width=0.5)
     raise KeyError(rule)
 
 
